@@ -1,0 +1,204 @@
+//go:build verif
+
+package comp
+
+import "sort"
+
+// Verification hook (add-only, build tag verif): plain-data snapshot of the
+// MSI machinery of the multi-core variants (mvp7-0, mvp7-1, mvp8-0).  The
+// three packages fill the same structure, so that one harness and one oracle
+// can judge them.
+
+// VerifMsiLine is a copy of one cache line.
+type VerifMsiLine struct {
+	Base int32
+	Data []int8
+}
+
+// VerifMsiState is the protocol state of one (core, aligned L1 line).
+type VerifMsiState struct {
+	Core  int
+	Line  int32
+	State int32 // 0 invalid, 1 shared, 2 modified
+}
+
+// VerifMsiSem holds the counters of the semaphore of one line.
+type VerifMsiSem struct {
+	Line        int32
+	Read, Write int
+}
+
+// VerifMsiCmd is one outstanding snoop command.
+type VerifMsiCmd struct {
+	Core int
+	Line int32
+	Kind int32 // request type of the variant (1 evict, 2 write-back; 8.0: 3 l3 evict, 4 l3 write-back)
+	Done bool
+}
+
+// VerifMsiTx tells what transactions the cache controller of a core is in.
+type VerifMsiTx struct {
+	Core        int
+	ReadActive  bool    // the read coroutine is past its start (a lock is held)
+	ReadLines   []int32 // keys of rlockSems
+	WriteActive bool
+	WriteLines  []int32 // keys of lockSems
+	SnoopBusy   bool    // the snoop coroutine has queued work
+}
+
+// VerifMsiSnapshot is everything the C06 invariants talk about.
+type VerifMsiSnapshot struct {
+	Cores      int
+	L1LineSize int
+	L3LineSize int // 0 when the variant has no L3
+	States     []VerifMsiState
+	L1         [][]VerifMsiLine // per core, in cache order (most recent first)
+	Sems       []VerifMsiSem
+	Cmds       []VerifMsiCmd
+	Tx         []VerifMsiTx
+	L3         []VerifMsiLine // nil when the variant has no L3
+	L3Dirty    []int32        // L3 lines marked pending write
+	L3Locked   []int32        // L3 lines whose mutex is held
+	Mem        []VerifMsiLine // main memory of every L1-sized line mentioned above
+}
+
+// VerifCopyLines copies the lines of a cache.
+func VerifCopyLines(c *LRUCache) []VerifMsiLine {
+	out := make([]VerifMsiLine, 0, len(c.lines))
+	for _, l := range c.lines {
+		d := make([]int8, len(l.Data))
+		copy(d, l.Data)
+		out = append(out, VerifMsiLine{Base: int32(l.Boundary[0]), Data: d})
+	}
+	return out
+}
+
+// VerifSemCounters exposes the counters of a semaphore.
+func VerifSemCounters(s *Sem) (read, write int) {
+	return s.read, s.write
+}
+
+// VerifFinish sorts the unordered parts (they come from Go maps) and adds the
+// memory image of every line mentioned.
+func (s *VerifMsiSnapshot) VerifFinish(memory []int8) {
+	sort.Slice(s.States, func(i, j int) bool {
+		a, b := s.States[i], s.States[j]
+		if a.Core != b.Core {
+			return a.Core < b.Core
+		}
+		return a.Line < b.Line
+	})
+	sort.Slice(s.Sems, func(i, j int) bool { return s.Sems[i].Line < s.Sems[j].Line })
+	sort.Slice(s.Cmds, func(i, j int) bool {
+		a, b := s.Cmds[i], s.Cmds[j]
+		if a.Core != b.Core {
+			return a.Core < b.Core
+		}
+		if a.Line != b.Line {
+			return a.Line < b.Line
+		}
+		return a.Kind < b.Kind
+	})
+	for i := range s.Tx {
+		sort.Slice(s.Tx[i].ReadLines, func(a, b int) bool { return s.Tx[i].ReadLines[a] < s.Tx[i].ReadLines[b] })
+		sort.Slice(s.Tx[i].WriteLines, func(a, b int) bool { return s.Tx[i].WriteLines[a] < s.Tx[i].WriteLines[b] })
+	}
+	sort.Slice(s.L3Dirty, func(i, j int) bool { return s.L3Dirty[i] < s.L3Dirty[j] })
+	sort.Slice(s.L3Locked, func(i, j int) bool { return s.L3Locked[i] < s.L3Locked[j] })
+
+	size := int32(s.L1LineSize)
+	touched := map[int32]bool{}
+	floor := func(a int32) int32 {
+		r := a % size
+		if r < 0 {
+			r += size
+		}
+		return a - r
+	}
+	for _, e := range s.States {
+		touched[floor(e.Line)] = true
+	}
+	for _, ls := range s.L1 {
+		for _, l := range ls {
+			touched[floor(l.Base)] = true
+		}
+	}
+	for _, e := range s.Sems {
+		touched[floor(e.Line)] = true
+	}
+	for _, e := range s.Cmds {
+		touched[floor(e.Line)] = true
+	}
+	for _, l := range s.L3 {
+		for o := int32(0); o < int32(len(l.Data)); o += size {
+			touched[floor(l.Base+o)] = true
+		}
+	}
+	bases := make([]int32, 0, len(touched))
+	for b := range touched {
+		bases = append(bases, b)
+	}
+	sort.Slice(bases, func(i, j int) bool { return bases[i] < bases[j] })
+	s.Mem = s.Mem[:0]
+	for _, b := range bases {
+		d := make([]int8, size)
+		for i := int32(0); i < size; i++ {
+			a := int(b) + int(i)
+			if a >= 0 && a < len(memory) {
+				d[i] = memory[a]
+			}
+		}
+		s.Mem = append(s.Mem, VerifMsiLine{Base: b, Data: d})
+	}
+}
+
+// ---- cheap fingerprint of the same state (no allocation): lets an observer
+// skip the full snapshot in cycles in which nothing changed ----
+
+const verifFnvPrime = 1099511628211
+
+// VerifMix folds integers into a hash (FNV-1a over their bytes).
+func VerifMix(h uint64, vals ...int64) uint64 {
+	for _, v := range vals {
+		u := uint64(v)
+		for i := 0; i < 8; i++ {
+			h ^= u & 0xff
+			h *= verifFnvPrime
+			u >>= 8
+		}
+	}
+	return h
+}
+
+// VerifHashBytes folds a byte slice into a hash.
+func VerifHashBytes(h uint64, d []int8) uint64 {
+	i := 0
+	for ; i+8 <= len(d); i += 8 {
+		w := uint64(uint8(d[i])) | uint64(uint8(d[i+1]))<<8 | uint64(uint8(d[i+2]))<<16 | uint64(uint8(d[i+3]))<<24 |
+			uint64(uint8(d[i+4]))<<32 | uint64(uint8(d[i+5]))<<40 | uint64(uint8(d[i+6]))<<48 | uint64(uint8(d[i+7]))<<56
+		h = (h ^ w) * verifFnvPrime
+		h ^= h >> 29
+	}
+	for ; i < len(d); i++ {
+		h ^= uint64(uint8(d[i]))
+		h *= verifFnvPrime
+	}
+	return h
+}
+
+// VerifHashCache folds the lines of a cache, in order, into a hash.
+func VerifHashCache(h uint64, c *LRUCache) uint64 {
+	for _, l := range c.lines {
+		h = VerifMix(h, int64(l.Boundary[0]))
+		h = VerifHashBytes(h, l.Data)
+	}
+	return VerifMix(h, int64(len(c.lines)))
+}
+
+// VerifBool is 1 for true.
+func VerifBool(b bool) int64 {
+	if b {
+		return 1
+	}
+	return 0
+}
